@@ -94,7 +94,10 @@ fn cmd_check(prop: &str, tier: &str) -> i32 {
             // replay the witness with no finding suppressed
             let r = replay(&tr, &BTreeSet::new());
             match r.violation {
-                Some(v) if v.finding.as_deref() == Some(f.id.as_str()) => {
+                // the witness still fails with this finding's matcher - or with the matcher of another
+                // open finding of this property (their envelopes overlap on some states: a swap on a
+                // degenerate pool can fall under S6's tolerance and under S9's definition): known
+                Some(v) if v.finding.as_deref() == Some(f.id.as_str()) || v.finding.as_ref().map(|k| open.contains(k)).unwrap_or(false) => {
                     let line = format!("KNOWN-FINDING: property={} {} [{}]", prop, f.what, f.id);
                     println!("{line}");
                     known_lines.push(line);
